@@ -352,14 +352,28 @@ class FnText:
                     return j, k - 1, False
             k += 1
 
-    def annotate_closure(self, n, header, origin):
+    def closure_let(self, n, stmt, origin):
+        """T10: `|pat| body` -> `|x| { let pat = x; body }` (the let text is given by the contract)"""
+        cs = self.closures()
+        if n > len(cs):
+            raise Unsupported(f'{self.name}: @closurelet {n}: function has {len(cs)} closures')
+        b1, b2 = cs[n - 1]
+        bs, be, is_block = self.closure_body(b2)
+        if is_block:
+            pos = self.stok(bs).end
+        else:
+            pos = self.stok(bs).start
+        # sorts after the `{ ` insertion of annotate_closure at the same position (stable sort, later edit)
+        self.edits.append((pos, pos, ' ' + stmt.strip() + ' ', origin))
+
+    def annotate_closure(self, n, header, origin, extra=''):
         cs = self.closures()
         if n > len(cs):
             raise Unsupported(f'{self.name}: @closure {n}: function has {len(cs)} closures')
         b1, b2 = cs[n - 1]
         # parameter names of the original must reappear in the new header (`_` may become `_p`)
         orig_params = [self.stok(k).text for k in range(b1 + 1, b2) if self.stok(k).kind == 'ident']
-        hdr_idents = {t.text for t in tokenize(header) if t.kind == 'ident'}
+        hdr_idents = {t.text for t in tokenize(header + ' ' + extra) if t.kind == 'ident'}
         for p in orig_params:
             if p not in hdr_idents and p not in ('_', 'mut', 'ref'):
                 raise Unsupported(f'{self.name}: @closure {n}: parameter {p} missing in new header')
@@ -585,6 +599,11 @@ def process_extract(block_text, tmpl_path, tmpl_line, report):
     info = {'fn': name, 'file': rel, 'line': src.count('\n', 0, start) + 1,
             'end_line': src.count('\n', 0, end) + 1, 'logging_removed': nlog, 'clauses': 0,
             'directives': []}
+    lets = {}
+    for d, arg, payload, ln in items:
+        if d == 'closurelet':
+            mm = re.match(r'(\d+)\s+(.*)$', arg, re.S)
+            lets[int(mm.group(1))] = mm.group(2)
     for d, arg, payload, ln in items:
         origin = ('inj', f'{os.path.basename(tmpl_path)}:{ln} @{d} {arg}'.strip())
         info['directives'].append(f'@{d} {arg}'.strip())
@@ -621,8 +640,11 @@ def process_extract(block_text, tmpl_path, tmpl_line, report):
             ft.loopvar(int(n), nm)
         elif d == 'closure':
             m = re.match(r'(\d+)\s+(.*)$', arg + ('\n' + payload if payload.strip() else ''), re.S)
-            ft.annotate_closure(int(m.group(1)), m.group(2), origin)
+            ft.annotate_closure(int(m.group(1)), m.group(2), origin, lets.get(int(m.group(1)), ''))
             info['clauses'] += count_clauses(m.group(2))
+        elif d == 'closurelet':
+            m = re.match(r'(\d+)\s+(.*)$', arg, re.S)
+            ft.closure_let(int(m.group(1)), m.group(2), origin)
         elif d == 'return':
             ft.wrap_return('tail' if arg == 'tail' else int(arg), payload, origin)
             info['clauses'] += count_clauses(payload)
